@@ -17,6 +17,34 @@ def drivers(ctx):
             "migration": vlib.build_driver(ctx, "pkg/migration", ["migration/driver_test.go"])}
 
 
+def composition(ctx):
+    """Growth beyond the listed properties (DESIGN.md 8): the kdf pipeline sentence -> seed -> SLIP-10 -> Ed25519 -> address ->
+    Bech32 and internal/hexutil, judged by module IotaCrypto.  A rejection here is reported under C19 (the address is the
+    pipeline's end) only when the address / Bech32 stage is at fault; earlier stages are reported as notes and belong to
+    C09 / C02 / C07, whose own checks decide them."""
+    try:
+        cb = vlib.build_driver(ctx, "pkg/bech32/address", ["compose/driver_test.go"], name="compose")
+        hb = vlib.build_driver(ctx, "internal/hexutil", ["hexutil/driver_test.go"], name="hexutil")
+    except vlib.Infra as e:
+        ctx.skipped.append("composition leg: driver does not build: %s" % str(e)[:200])
+        return
+    d = ctx.rundir("compose")
+    vlib.run_driver(ctx, cb, "record", d + "/c.ndjson", n=8 if ctx.quick() else 150)
+    vlib.run_driver(ctx, hb, "record", d + "/h.ndjson", n=100 if ctx.quick() else 3000)
+    ev = vlib.read_ndjson(d + "/c.ndjson") + vlib.read_ndjson(d + "/h.ndjson")
+    for k, e in enumerate(ev):
+        e["t"] = 9
+    bad = vlib.validate_trace(ctx, "IotaCrypto", ev, label="T_compose")
+    for b in bad:
+        if b["op"] == "compose.kdf" and b["out"].get("ok") and b["out"].get("addr") == b.get("facts", {}).get("blake"):
+            for e in vlib.reproduce(ctx, cb, [b]):
+                e = dict(e)
+                e.pop("facts", None)
+                ctx.bad.append(dict(event=e, reason="composition: address / Bech32 stage of the kdf pipeline differs from IotaCrypto"))
+        else:
+            ctx.notes.append("composition leg rejected an event outside C19's scope (%s): decided by that stage's own check" % b["op"])
+
+
 def run(ctx):
     q = ctx.quick()
     vlib.model_check(ctx, "AddressMC", timeout=600, workers=4)
@@ -38,6 +66,7 @@ def run(ctx):
     for pk, binp in bins.items():
         for e in vlib.reproduce(ctx, binp, [b for b in bad if b["op"].startswith(pk + ".")]):
             ctx.bad.append(dict(event=e, reason="real %s disagrees with the Address specification" % e["op"]))
+    composition(ctx)
     return vlib.finish(ctx, LEVEL, RULE, ASSUME, matchers=bc.MATCHERS,
                        technique="TLA+ spec Address (Bech32 + version table; migration = b1t6 + checksum fact); TLC model; TLC-generated strings replayed; trace validation")
 
